@@ -1,7 +1,7 @@
 (* Lemmas about Model/Storage.v: every operation reads and writes only the entry of the stream it
-   is addressed to - except today's Clear.  From this: relational non-interference and
-   "projection = solo run" for all operation sequences, for the repaired Clear and for today's
-   code on Clear-free sequences; refutation for today's Clear. *)
+   is addressed to - except the former Clear (F3, fixed).  From this: relational non-interference
+   and "projection = solo run" for all operation sequences of the code as it is (ClearRepaired), and
+   for the former code on Clear-free sequences; refutation for the former Clear. *)
 From Coq Require Import List NArith Bool Lia.
 From Iscp Require Import Lib.ListMap Model.Upstream Model.Storage.
 Import ListNotations.
@@ -137,26 +137,29 @@ Lemma snap_all_empty ids : snap_all ids [] = map (fun _ => RNoStream) ids.
 Proof. induction ids as [|i ids IH]; [reflexivity|]. unfold snap_all in *. cbn [map]. rewrite IH. reflexivity. Qed.
 
 (* ------------------------------------------------------------------------------------------ *)
-(* today's Clear: refutation with a computed witness (the case the harness reproduces) *)
+(* the FORMER Clear (before /repo 0f97a0d): refutation with a computed witness *)
 
 Definition f3_ops : list sop := [SStore 1 1 [(1, [(1, 4038, 2)])]; SStore 2 1 [(2, [(2, 77, 1)])]; SClear 1].
 
-Lemma clear_today_refuted :
+Lemma clear_former_refuted :
   exists keep st o b,
-    sop_stream o <> b /\ st_list b (fst (sstep ClearToday keep st o)) <> st_list b st.
+    sop_stream o <> b /\ st_list b (fst (sstep ClearFormer keep st o)) <> st_list b st.
 Proof.
-  exists true, (fst (srun ClearToday true [] [SStore 2 1 [(2, [(2, 77, 1)])]])), (SClear 1), 2.
+  exists true, (fst (srun ClearFormer true [] [SStore 2 1 [(2, [(2, 77, 1)])]])), (SClear 1), 2.
   split; [discriminate|]. vm_compute. discriminate.
 Qed.
 
-(* the same on the observational predicate: a case whose observation equals the model's run of
-   today's code (corr) and on which the predicate is false *)
+(* the same on the observational predicate: a case whose observation is the former model's run
+   and on which the predicate is false *)
 Definition f3_case : st_case :=
   mkStCase true [1; 2] f3_ops
-    (snd (srun ClearToday true [] f3_ops)) (srun_snaps ClearToday true [1; 2] [] f3_ops).
+    (snd (srun ClearFormer true [] f3_ops)) (srun_snaps ClearFormer true [1; 2] [] f3_ops).
 
-Lemma storage_ok_refuted : st_corr f3_case = true /\ c07_storage_ok f3_case = false.
-Proof. vm_compute. split; reflexivity. Qed.
+Lemma storage_ok_refuted :
+  sc_res f3_case = snd (srun ClearFormer true [] (sc_ops f3_case)) /\
+  sc_snaps f3_case = srun_snaps ClearFormer true (sc_ids f3_case) [] (sc_ops f3_case) /\
+  c07_storage_ok f3_case = false.
+Proof. vm_compute. repeat split; reflexivity. Qed.
 
 (* what a stream stores is exactly what it was given (payload-keeping) / stripped (default) *)
 Lemma store_then_lookup v keep st sid seq g :
